@@ -279,6 +279,21 @@ def run(ctx):
                    "the channel without a side row: the usage record of the channel has the "
                    "wrong start / waiting time and counts one side too few"))
     ctx.require("R15.rows", nrows, 2, "admission sites (open, claim)")
+    # R15.scope: `one usage record for its app` -- what is retired and recorded
+    # under an app's id was selected among that app's rows
+    ctx.rule("R15.scope", "statements that select what is retired are confined to the "
+             "namespace's own app (same rule instances as R06.scope)")
+    from . import c06
+    sub6 = Ctx(model, "C06", ctx.tier)
+    c06.run(sub6)
+    nsc = 0
+    for o in sub6.obligations:
+        if o.rule == "R06.scope":
+            nsc += 1
+            ctx.ob("R15.scope", o.construct, o.ok, o.site, o.detail + ("" if o.ok else
+                   " -- rows of another app are retired by this namespace and their usage "
+                   "records are written under the wrong app id"))
+    ctx.require("R15.scope", nsc, 10, "scoped statements")
     # R15.table / R15.times
     app = ("obj", "AppNamespace", ("sym",))
     for kind, table in (("mailbox", "mailboxes"), ("nameplate", "nameplates")):
